@@ -33,7 +33,7 @@ for d in sorted(glob.glob(SRC + "/C*-*")):
         "id": sid,
         "breaks_property": prop,
         "summary": meta.get("summary"),
-        "needs_to_manifest": meta.get("needs"),
+        "needs_to_manifest": meta.get("needs") or meta.get("needs_to_manifest"),
         "files_changed": meta.get("files_changed"),
         "demo": {"files": v.get("demo_files"), "commands": v.get("demo_tests"), "note": "copy demo*.rs to the listed path(s) inside a scratch worktree of /repo, then run the command(s) with --offline"},
         "confirmed_by_me": {
